@@ -164,7 +164,7 @@ static const char *const dict_cal[] = {
     "frequencies: 0", "frequencies: 100000", "frequencies: 99999999999",
     "frequencies: -1",
     "type: X9", "type: E12", "type: T16", "type: [T8]", "data: 5",
-    "data: []", "data: {}", "- 3", "- [1, 2]", "- x", "- 3", "- f: 1", "ts: x", "ts: [1, 2]", "e: []",
+    "data: []", "data: {}", "- 3", "- [1, 2, 3]", "- x", "- [1, 2, 3, 4, 5]", "- f: 1", "ts: x", "ts: [1, 2]", "e: []",
     "el: ~", "z0: j", "z0: 1 2 3", "z0: +j", "name: [a]", "name: ~",
     "#VNACal 2.0", "#VNACAL 2.0", "#VNACal 1.0", "? [a, b] : c",
     "properties: [x]", "properties: {a..b: 1}", "properties: {'': 1}",
@@ -192,7 +192,7 @@ static const char *dict_pick(int kind, vt_rng_t *rng)
 }
 
 static const char *const num_subst[] = {
-    "0", "-1", "1e308", "1e-320", "nan", "inf", "-inf", "1e999", "0x10", "007",
+    "0", "-1", "-7", "1e308", "1e-320", "nan", "inf", "-inf", "1e999", "0x10", "007",
     "99999999999", "2147483648", "-2147483649", "-0", "+", "1e", ".", "1.2.3",
     "1,5", "1e+", "0.0000000000000000000000000000000001", "4294967296",
     "1e-999", "NaN", "Infinity", "1d3", "١", "1_000", "0b1", "  ", "",
